@@ -112,11 +112,11 @@ def mutable_components(st):
         out.append(("point_labels", st.point_labels))
     for f in ("point_log_likelihood", "stacked_training_data"):
         v = getattr(st, f)
-        if isinstance(v, np.ndarray) and v.ndim > 0:
+        if isinstance(v, np.ndarray) and v.dtype != object:      # 0-d arrays are mutable too
             out.append((f, v))
     for f in ("sparsity_weight", "label_switching_cost"):
         v = getattr(st.arguments, f)
-        if isinstance(v, np.ndarray) and v.ndim > 0:
+        if isinstance(v, np.ndarray) and v.dtype != object:
             out.append((f"arguments.{f}", v))
     out.append(("arguments(object)", st.arguments))
     for k, c in enumerate(st.clusters):
@@ -124,7 +124,7 @@ def mutable_components(st):
         out.append((f"cluster{k}.member_points", c.member_points))
         for f in seams.CLUSTER_FIELDS:
             v = getattr(c, f)
-            if isinstance(v, np.ndarray) and v.ndim > 0 and v.size > 0:
+            if isinstance(v, np.ndarray) and v.dtype != object and v.size > 0:
                 out.append((f"cluster{k}.{f}", v))
     return out
 
